@@ -332,3 +332,13 @@ def share_counts(draw, sessions, variances, r):
                 out["sum_pxx"] = a["sum_pxx"] + 2 * d[None, :] * a["sum_px"] + n[:, None] * d[None, :] ** 2
             sessions[j] = out
     return sessions
+
+
+def with_empty_chunks(draw, sizes):
+    """Insert zero-length blocks into a chunk composition (Dask arrays may carry them, e.g. after filtering)."""
+    if not choice(draw, [False, False, False, True]):
+        return sizes
+    out = list(sizes)
+    for _ in range(integer(draw, 1, 2)):
+        out.insert(integer(draw, 0, len(out)), 0)
+    return out
